@@ -14,6 +14,7 @@ package main
 
 import (
 	"fmt"
+	"runtime"
 	"strings"
 	"sync/atomic"
 	"time"
@@ -205,18 +206,19 @@ func runUpdates(rec *recorder, sim *chain.Sim, in *input, key string, ci *caseIn
 		au consensus.ApplyUpdate
 		// the accumulator after the update can judge the proofs (the elements are still unspent)
 		judge bool
+		from  *input // what the update was computed from
 	}
 	var ups []update
 	{
 		src := mkIndependent(in)
 		cs, au := consensus.ApplyBlock(src.S, src.B, src.Supp, time.Time{})
-		ups = append(ups, update{"own", cs, au, false})
+		ups = append(ups, update{"own", cs, au, false, src})
 	}
 	{
 		be, bse := sim.Seal(nil, nil), sim.Supplement(nil)
 		if consensus.ValidateBlock(in.S, be, bse) == nil {
 			cs, au := consensus.ApplyBlock(in.S, be, bse, time.Time{})
-			ups = append(ups, update{"next", cs, au, true})
+			ups = append(ups, update{"next", cs, au, true, &input{S: in.S, B: be, Supp: bse}})
 		} else {
 			st.note = "an empty block on the parent is not valid"
 		}
@@ -288,9 +290,15 @@ func runUpdates(rec *recorder, sim *chain.Sim, in *input, key string, ci *caseIn
 		audit := func(v *updVariant, i int, after *callInfo) {
 			rec.add(Event{Ev: "A", Case: seg, Mem: cellMem(v, i), D: deep(v.cells[i].se), call: after})
 		}
+		// ownership (Purity!Place): the update that will be applied is a returned value with memory of its own; so is every
+		// cell of every copy, before and after each refresh
+		rec.add(Event{Ev: "P", Case: seg, Mem: fmt.Sprintf("u%d.update", run), own: &own{Who: fmt.Sprintf("u%d.update", run), Frozen: true, By: "publish", raw: updateRegions(&up.au, up.from)},
+			call: &callInfo{cs: ci, kind: "update", fn: "update-" + up.op, cell: -1, updKind: "", updCell: -1}})
 		for _, v := range vs {
 			for i := range v.cells {
 				audit(v, i, &callInfo{cs: ci, kind: v.kind, fn: "update-" + up.op, cell: i, updKind: "", updCell: -1})
+				rec.add(Event{Ev: "P", Case: seg, Mem: cellMem(v, i), own: &own{Who: v.mem, By: "track", raw: cellRegion(v.cells[i].se)},
+					call: &callInfo{cs: ci, kind: v.kind, fn: "update-" + up.op, cell: i, updKind: "", updCell: -1, note: v.cells[i].path}})
 			}
 		}
 		for _, v := range vs[1:] {
@@ -312,7 +320,8 @@ func runUpdates(rec *recorder, sim *chain.Sim, in *input, key string, ci *caseIn
 					res = sha(after)
 				}
 				info := &callInfo{cs: ci, kind: v.kind, fn: "update-" + up.op, cell: i, updKind: v.kind, updCell: i, note: c.path}
-				rec.add(Event{Ev: "M", ID: int(rec.nextID.Add(1)), Fn: "upd:" + sha(before), Op: "update-" + up.op, Case: seg, Mem: cellMem(v, i), D: d0, D1: deep(c.se), Res: res, call: info})
+				rec.add(Event{Ev: "M", ID: int(rec.nextID.Add(1)), Fn: "upd:" + sha(before), Op: "update-" + up.op, Case: seg, Mem: cellMem(v, i), D: d0, D1: deep(c.se), Res: res,
+					own: &own{Who: v.mem, raw: cellRegion(c.se)}, call: info})
 				st.updates++
 				if len(c.se.MerkleProof) > l0 {
 					st.grown++
@@ -338,6 +347,15 @@ func runUpdates(rec *recorder, sim *chain.Sim, in *input, key string, ci *caseIn
 				audit(w, j, &callInfo{cs: ci, kind: w.kind, fn: "update-" + up.op, cell: j, updKind: "another", updCell: -1})
 			}
 		}
+		// the memory of this run is given up: later runs filed under the same case may be handed the same addresses
+		rec.add(Event{Ev: "P", Case: seg, Mem: fmt.Sprintf("u%d.update", run), own: &own{Who: fmt.Sprintf("u%d.update", run), Frozen: true, By: "release"}})
+		for _, v := range vs {
+			for i := range v.cells {
+				rec.add(Event{Ev: "P", Case: seg, Mem: cellMem(v, i), own: &own{Who: v.mem, By: "release"}})
+			}
+		}
+		runtime.KeepAlive(vs)
+		runtime.KeepAlive(up)
 		st.cells += n * len(vs)
 		st.runs++
 		// the real accumulator judges the updated proofs of every copy: one key, one answer
